@@ -3,6 +3,7 @@
 from __future__ import annotations
 
 import asyncio
+import os
 
 from hypothesis import strategies as st
 
@@ -90,6 +91,18 @@ def enumerate_cases(tier: str):
         for kind in ("read", "failed", "base"):
             for mode in ("fresh", "persistent"):
                 yield {"kind": "hist", "listen_mode": mode, "ops": [["rx", f"0;255;3;0;2;{report}\n"], ["read_error", kind], ["probe", "edge"], ["read_error", kind], ["rx", "0;255;3;0;9;log\n"]]}
+    # version-looking text in every message that is NOT a version report: the active protocol does not move
+    for report in (None, "1.5.1", "2.0.0"):
+        lines = [f"0;255;3;0;{t};{text}\n" for t in range(0, 34) if t != 2 for text in ("2.2.0", "VER=2.3.2", "192.168.1.20")]
+        lines += [f"3;255;3;0;{t};2.2.0\n" for t in range(0, 34) if t != 2] + ["3;255;0;0;17;2.2.0\n", "3;255;0;0;18;2.1.1\n", "3;1;0;0;6;2.2.0\n", "3;1;1;0;47;2.2.0\n", "3;255;4;0;0;2.2.0\n"]
+        ops = ([] if report is None else [["rx", f"0;255;3;0;2;{report}\n"]]) + [["rx", l] for l in lines] + [["probe", "edge"]]
+        for mode in ("fresh", "persistent"):
+            yield {"kind": "hist", "listen_mode": mode, "ops": ops}
+    # a persistence file that cannot be written (read-only or full disk) while reports arrive in both forms
+    for persist in ("unwritable", "tmp"):
+        for form in ("0;255;0;0;18;{}\n", "0;255;3;0;2;{}\n", "0;255;0;1;18;{}\n"):
+            ops = [["rx", form.format("2.2.0")], ["probe", "edge"], ["rx", "3;255;0;0;17;2.1.0\n"], ["rx", form.format("1.5.1")], ["probe", "edge"], ["rx", form.format("2.0.0")], ["probe", "edge"]]
+            yield {"kind": "hist", "listen_mode": "persistent", "ops": ops, "persist": persist}
     # the gateway node itself is asked to present again (it sent something for an unknown child), then reports a new release
     for first in ("1.5.1", "2.0.0", "2.1.1", "2.2.0"):
         for then in ("1.4", "2.0.0", "2.2.0", "2.3.2"):
@@ -127,6 +140,13 @@ def _hist_ops():
                     ["rx", "1;1;0;0;6;\n"],
                     ["rx", "1;1;1;0;0;20\n"],
                     ["rx", "0;255;3;0;9;log\n"],
+                    ["rx", "0;255;3;0;9;IP: 192.168.1.20\n"],
+                    ["rx", "0;255;3;0;9;MCO:BGN:INIT GW,CP=RNNGA---,VER=2.3.2\n"],
+                    ["rx", "0;255;3;0;9;TSF:MSG:READ,2-2-0,s=255,c=3,t=11,pt=0,l=5,sg=0:2.1.1\n"],
+                    ["rx", "3;255;3;0;9;1.5.0\n"],
+                    ["rx", "0;255;3;0;14;Gateway startup complete. 2.2.0\n"],
+                    ["rx", "3;255;3;0;11;Sketch 2.0.0\n"],
+                    ["rx", "3;255;3;0;12;2.1.1\n"],
                     ["rx", "0;255;3;0;14;Gateway startup complete.\n"],
                     ["rx", "1;255;3;0;22;5\n"],
                     ["rx", "junk\n"],
@@ -155,9 +175,9 @@ def _hist_ops():
 def strategy(tier: str):
     return st.one_of(
         st.fixed_dictionaries({"kind": st.just("hist"), "listen_mode": st.sampled_from(("fresh", "persistent")), "ops": _hist_ops(), "debug_log": st.sampled_from((False, False, True)),
-                               "tasks": st.sampled_from((False, False, True))}),
+                               "tasks": st.sampled_from((False, False, True)), "persist": st.sampled_from((None, None, "tmp", "unwritable"))}),
         st.fixed_dictionaries({"kind": st.just("hist"), "listen_mode": st.sampled_from(("fresh", "persistent")), "ops": _hist_ops(), "debug_log": st.sampled_from((False, False, True)),
-                               "tasks": st.sampled_from((False, False, True))}),
+                               "tasks": st.sampled_from((False, False, True)), "persist": st.sampled_from((None, None, "tmp", "unwritable"))}),
         st.fixed_dictionaries(
             {"kind": st.just("map"), "text": st.one_of(release_text, common_release), "via": st.sampled_from(("get_protocol", "reply", "presentation")),
              "debug_log": st.sampled_from((False, False, True))}
@@ -266,7 +286,15 @@ def _run_hist(case: dict) -> Outcome:
     stats = {"rejected": 0, "accepted": 0}
 
     async def go() -> Outcome | None:
-        gateway, _t = env.make_gateway(None)
+        # "persist": a persistence file is configured - writable (scratch) or at a location that cannot be written (full or read-only disk)
+        persist = case.get("persist")
+        scratch_dir = None
+        if persist == "tmp":
+            import tempfile
+
+            scratch_dir = tempfile.mkdtemp(prefix="vfc05-", dir="/dev/shm" if os.path.isdir("/dev/shm") else None)
+            stats["tmpdir"] = scratch_dir
+        gateway, _t = env.make_gateway(None, persistence_file={"tmp": os.path.join(scratch_dir or "", "registry.json"), "unwritable": "unwritable"}.get(persist))
         listener = env.Listener(gateway) if case.get("listen_mode") == "persistent" else None
 
         async def deliver(line: str):
@@ -336,6 +364,8 @@ def _run_hist(case: dict) -> Outcome:
                 if op[1]:
                     await env.rx(other, f"0;255;3;0;2;{op[1]}\n")
                 op = ["rx", "0;255;3;0;9;bystander created\n"]
+            if op[0] == "session" and persist == "unwritable":
+                op = ["rx", "0;255;3;0;9;(no session: the persistence file cannot even be created)\n"]
             if op[0] == "session":
                 # the application leaves the gateway context and enters it again (reconnect on the same object)
                 if listener is not None:
@@ -382,8 +412,14 @@ def _run_hist(case: dict) -> Outcome:
             return fail(f"handlers-in-force:{want}", f"after history, version {reported!r} (rules {want}): set from unknown node 77 {'wrote' if asked else 'did not write'} a presentation request")
         return await probe_rules("after history", PROBES)
 
-    bad = env.run(go())
-    classes = ("hist", f"reports={min(len(reports), 5)}") + (("hist-rejected-report",) if stats["rejected"] else ())
+    try:
+        bad = env.run(go())
+    finally:
+        if stats.get("tmpdir"):
+            import shutil
+
+            shutil.rmtree(stats["tmpdir"], ignore_errors=True)
+    classes = ("hist", f"reports={min(len(reports), 5)}") + ((f"persist={case['persist']}",) if case.get("persist") else ()) + (("hist-rejected-report",) if stats["rejected"] else ())
     if bad is not None:
         bad.classes = classes
         return bad
